@@ -72,7 +72,7 @@ func checkC08(c C08Case) *Violation {
 	if res.TimedOut || res.Crashed() {
 		return vio("write-crashed", "timeout=%v stderr=%s%s", res.TimedOut, res.Stderr, ctx)
 	}
-	if res.Exit != 0 && c.Huge {
+	if res.Exit != 0 && beyondDelta(d) {
 		return nil // C08 speaks about successful writes only, and an SMF cannot hold such a duration
 	}
 	if res.Exit != 0 {
